@@ -3,7 +3,7 @@ import vlib, smcheck, mirrorcheck
 
 META = {
     "level": "model_checking",
-    "text": "StateMachine.tla is the sequential reference model of statemachine.go (one operator per Go function; consensus-manager hand-off, timers, finalization, catch-up, jump-ahead); TLC explores every order of round-entrance responses, monotone view growth, timer expiries, strategy answers, finalization responses, height-committed signals and block-data arrivals. Every generated behaviour is replayed on a real tmstate.StateMachine; after each event the projected round lifecycle (height, round, step, timer, channel states, finalization flags, view version) and the multiset of outputs (strategy calls, timer starts/cancels, round entrances, finalize requests, store writes, signatures, emitted actions) must equal the model's, and the named rules are evaluated on the real outputs: finalize only on >2/3 precommits for the block in the current round view or on a supplied committed header, entered (height, round) pairs strictly increase, calls and votes refer to the current round. A divergence from the reference model is reported as a violation of this property (it is a refinement claim). A round may be left while the strategy is still inside a call made for it: EnterRound waits behind it and the LATE ANSWER goes to the channel of the round that was left (StateMachineMC.tla LateAnswer; the harness lets the strategy return right after the entrance response) -- it must have no effect in the new round. Generation: witnesses, simulation and edge cover (every reachable (state, event) pair of the Small universe, with and without crashes); design level also checks C08_StepForward, C08_PosForward, C08_FinalizeNeedsQuorum, C08_FinStepHasElapsed; the repository's own tests run under an invariant monitor evaluating PosForward/StepForward/FinStepHasElapsed inside the state machine goroutine.",
+    "text": "StateMachine.tla is the sequential reference model of statemachine.go (one operator per Go function; consensus-manager hand-off, timers, finalization, catch-up, jump-ahead); TLC explores every order of round-entrance responses, monotone view growth, timer expiries, strategy answers, finalization responses, height-committed signals and block-data arrivals. Every generated behaviour is replayed on a real tmstate.StateMachine; after each event the projected round lifecycle (height, round, step, timer, channel states, finalization flags, view version) and the multiset of outputs (strategy calls, timer starts/cancels, round entrances, finalize requests, store writes, signatures, emitted actions) must equal the model's, and the named rules are evaluated on the real outputs: finalize only on >2/3 precommits for the block in the current round view or on a supplied committed header, entered (height, round) pairs strictly increase, calls and votes refer to the current round. A divergence from the reference model is reported as a violation of this property (it is a refinement claim). A round may be left while the strategy is still inside a call made for it: EnterRound waits behind it and the LATE ANSWER goes to the channel of the round that was left (StateMachineMC.tla LateAnswer; the harness lets the strategy return right after the entrance response) -- it must have no effect in the new round. A second stage replays the model with Participating = FALSE on a state machine without a signer (a follower). Generation: witnesses, simulation and edge cover (every reachable (state, event) pair of the Small universe, with and without crashes); design level also checks C08_StepForward, C08_PosForward, C08_FinalizeNeedsQuorum, C08_FinStepHasElapsed; the repository's own tests run under an invariant monitor evaluating PosForward/StepForward/FinStepHasElapsed inside the state machine goroutine.",
     "note": "The strategy is played by the harness with blocking calls, so requests that would block behind a busy strategy are excluded from generation (the 100 ms timed sends that panic are C09's). Vote targets are the strategy's by construction of the harness. Bounded: N=4, heights 1..3, rounds 0..2.",
     "technique": "TLA+ reference model (StateMachine.tla) + TLC bounded exploration + step-by-step refinement replay on the real state machine",
 }
@@ -25,6 +25,19 @@ def run(ctx):
     for m in mismatches:
         ctx.violation("Refinement", m["op"], "divergence", "the real state machine diverges from spec/StateMachine.tla: %s" % "; ".join(m["diff"] or []),
                       replay_obj={"steps": m["steps"]})
+    # a state machine that does NOT vote (no signer): the same reference model with Participating = FALSE; it still consults
+    # the strategy and follows the round rules, signs nothing, and a late strategy answer is not consumed
+    if not ctx.replay:
+        fplans = [{"cover": True, "universe": "Small", "steps": 4 if q else 5},
+                  {"universe": "Small", "rich": False, "sim": 8 if q else 40, "steps": 9 if q else 11, "cap": 150 if q else 2000, "seeds": 1}]
+        fcov, fmis, finc = smcheck.collect(ctx, {"C08"}, fplans, [], me=0)
+        for m in fmis:
+            ctx.violation("Refinement", m["op"], "divergence:follower", "a state machine without a signer diverges from spec/StateMachine.tla: %s" % "; ".join(m["diff"] or []),
+                          replay_obj={"me": 0, "steps": m["steps"]})
+        inconcl = inconcl + finc
+        cov["follower_state_machine"] = {k: fcov[k] for k in ("behaviours_replayed_on_real_code", "steps_replayed", "distinct_abstract_states_reached_on_real_code", "spec_vs_code_divergences")}
+        cov["behaviours_replayed_on_real_code"] += fcov["behaviours_replayed_on_real_code"]
+        cov["evaluations"] += fcov["evaluations"]
     # code -> spec direction: the repository's own tests run under the invariant monitor
     import suitemon
     cov.update(suitemon.run_suite(ctx, {"C08"}, kind="sm"))
